@@ -562,7 +562,6 @@ var c19Names = []string{"file%d.soy", "dir/sub/t%d.soy", "with space %d.soy", "Ã
 func c19ParseHalf(e *env, nBundles int) {
 	var faults []c19Fault
 	var cases []c19ParseCase
-	validIdx := map[int]bool{}
 	for i := 0; i < nBundles; i++ {
 		o := progOpts{depth: 2 + e.rng.Intn(2), directives: true, spread: true, allHeader: e.rng.Chance(60), noLog: e.rng.Bool()}
 		files, _, _, _ := genBundle(e.rng, o)
@@ -579,7 +578,6 @@ func c19ParseHalf(e *env, nBundles int) {
 			}
 		}
 		// the unedited bundle must compile (in the worker as well: nothing here is trusted not to hang)
-		validIdx[len(cases)] = true
 		cases = append(cases, c19ParseCase{Files: files})
 		faults = append(faults, c19Fault{Kind: "valid", Bundle: files})
 		for fi, f := range files {
@@ -602,7 +600,15 @@ func c19ParseHalf(e *env, nBundles int) {
 				}
 			}
 		}
+		if len(cases) >= 5000 || i == nBundles-1 {
+			c19JudgeParses(e, faults, cases)
+			faults, cases = nil, nil
+		}
 	}
+}
+
+// c19JudgeParses runs one batch of faulted files (worker subprocess, model tie) and evaluates the oracle.
+func c19JudgeParses(e *env, faults []c19Fault, cases []c19ParseCase) {
 	res := c19RunParses(e, cases)
 	c19ParseModelTie(e, faults)
 	for i, f := range faults {
@@ -1047,7 +1053,7 @@ func c19RunRender(e *env, c c19RenderCase, idx int) {
 		return
 	}
 	ids := newIDTable()
-	key := fmt.Sprintf("c19reg%d", idx)
+	key := "c19reg" // one slot, overwritten: the model runner keeps every registry it is given
 	if r := e.m.Call("load_registry", key, registrySexp(reg, ids)); len(r) == 0 || r[0] != "#1" {
 		e.res.Fail(hx.Violation{Kind: "mismatch", What: "model cannot load the registry", Case: c, Observed: fmt.Sprint(r)}, "")
 		return
